@@ -37,7 +37,14 @@ type generator struct {
 
 	// references to nested schemas being inlined: they can lead back to themselves
 	inlining map[string]struct{}
+	// number of references to nested schemas inlined so far
+	inlined int
 }
+
+// maxInlinedReferences bounds the references to nested schemas a document can
+// have inlined: every use of such a reference is a copy of what it designates,
+// and nested schemas that refer to each other multiply these copies.
+const maxInlinedReferences = 250000
 
 func GenerateAST(ctx context.Context, oapi *openapi3.T, cfg Config) (*ast.Schema, error) {
 	if cfg.Validate {
@@ -150,6 +157,11 @@ func (g *generator) walkRef(schema *openapi3.SchemaRef) (ast.Type, error) {
 		}
 		g.inlining[schema.Ref] = struct{}{}
 		defer delete(g.inlining, schema.Ref)
+
+		g.inlined++
+		if g.inlined > maxInlinedReferences {
+			return ast.Type{}, fmt.Errorf("more than %d references to nested schemas to inline, the last one being '%s': declare these schemas under components.schemas", maxInlinedReferences, schema.Ref)
+		}
 
 		return g.walkDefinitions(schema.Value)
 	}
